@@ -33,6 +33,12 @@ HASH_HEAVY = [
     ("Debug", 'struct S<A, B, C, D, E> { #[debug("{a:x}")] a: A, #[debug("{b} {c:?}")] b: B, c: C, #[debug(skip)] d: D, e: E }'),
     ("Debug", '#[debug(bound(A: Clone, B: Copy, C: Default))] enum E<A, B, C, D> { #[debug("{_0:?}{_1}")] V(A, B), W { #[debug("{x:e}")] x: C, y: D }, U }'),
     ("Display", '#[display(bound(A: Clone, D: Copy))] #[display("{_variant}/{_variant}")] enum E<A, B, C, D> { #[display("{_0}{_1}")] V(A, B), #[display("{_0:?}")] W(C), X(D) }'),
+    # type lists spread over several attributes (merged by the shared attribute helpers)
+    ("From", "#[from(u8)] #[from(u16, u32)] #[from(u64)] #[from(i8, i16)] #[from(i32)] struct S(i128);"),
+    ("From", "enum E { #[from(u8)] #[from(u16)] #[from(u32)] #[from(u64)] A(u128), #[from(i8, i16)] #[from(i32, i64)] B(i128) }"),
+    ("AsRef", "#[as_ref(u8)] #[as_ref([u8])] #[as_ref(str)] #[as_ref(String)] #[as_ref(Vec<u8>)] struct S(String);"),
+    ("AsMut", "struct S { #[as_mut(u8)] #[as_mut([u8])] #[as_mut(Vec<u8>)] #[as_mut(Box<u8>)] a: Vec<u8>, #[as_mut(i8)] #[as_mut(i16)] #[as_mut(i32)] b: i64 }"),
+    ("Into", "#[into(u16)] #[into(u32, u64)] #[into(ref(u8))] #[into(ref_mut(u8), owned(u128))] #[into(i16, i32)] struct S(u8);"),
     ("Error", "struct E<A, B, C, D> { source: A, b: B, c: C, d: D }"),
     ("Error", "enum E<A, B, C, D, F> { V1 { source: A }, V2(#[error(source)] B, u8), V3(C), V4 { #[error(source)] x: D, y: F }, V5 }"),
     ("Error", "enum E<A, B, C> { V1 { source: Box<A> }, V2(#[error(source)] Vec<B>), V3(#[error(source)] Option<C>, A), V4(#[error(not(source))] B) }"),
